@@ -52,13 +52,13 @@ def validate_models(run):
 
 
 def check(run):
-  timeout = 240 if run.tier == 'quick' else 900
-  env = None
+  timeout = 400 if run.tier == 'quick' else 2400
+  env = None if run.tier == 'quick' else {'C03_BOUNDS': '9,6,4'}
   run.functions += ['client_datasets.ClientDataset.batch/padded_batch', 'BatchView', 'PaddedBatchView', '_pick_final_batch_size',
                     'pad_examples', 'attach_mask', 'slice_examples', 'BatchPreprocessor']
   run.trusted += ['CrossHair "Confirmed over all paths" (z3 per path)', 'np_lite list-based numpy model (validated against numpy each run)']
   run.assumptions += ['numpy dtype promotion and real memory layout are outside the model', 'row values are symbolic ints; a second feature has trailing shape (2,)']
-  run.bounds = {'N': '0..6', 'batch_size': '1..4', 'buckets': '1..3', 'preprocessor chains': '0, 1 (derived feature), 2 (+ in-place modifier)',
+  run.bounds = {'N': '0..6 (thorough 0..9)', 'batch_size': '1..4 (6)', 'buckets': '1..3 (4)', 'preprocessor chains': '0, 1 (derived feature), 2 (+ in-place modifier)',
                 'bucket rule alone': 'N<=40, batch<=12, buckets<=4'}
   validate_models(run)
   specs = [('padded', 'prop'), ('plain', 'prop'), ('final_size', 'prop'), ('padded_reach', 'reach')]
